@@ -102,7 +102,7 @@ def gen_stages(rng, paired):
     if r < 0.3:
         st.append(("xy", ["-x", "pre_", "-y", "_suf"]))
     elif r < 0.5:
-        st.append(("rename", ["--rename", "{id} renamed {comment}"]))
+        st.append(("rename", ["--rename", rng.choice(["{id} renamed {comment}", "{id} h=[{header}]", "{id} {comment} was {header}"])]))
     if rng.random() < 0.3:
         st.append(("zcap", ["--zero-cap"]))
     return st
